@@ -20,6 +20,11 @@ class Unsupported(BaseException):
     """Construct or library call outside the interpreter's subset -> obligation undecided."""
 
 
+class MergeAbort(Unsupported):
+    """Evaluation under a merge guard (both sides of an if / and / or evaluated without forking) met something that may have
+    side effects or needs a fork: the merge is abandoned and the construct is forked instead."""
+
+
 def _leak(name):
     def f(self, *a, **k):
         raise NativeLeak(f"symbolic value used natively via {name}: {self!r}")
